@@ -42,7 +42,7 @@ CHECKS = {
     "C10": dyn("Structural Jacobian sparsity of the SX and MX functions and bit-exact NumPy perturbation results are checked by TLC against the declarative dependency sets Metanet!Deps.", "5/C10"),
     "C11": dyn("Family 'opts': the 64 option combinations over negative and positive inputs on NumPy, SX, MX; TLC compares with StepOpt = clamp o Step o clamp and checks bit-exactly the metamorphic relation against the plain step on hand-clamped inputs.", "5/C11"),
     "C12": life("Histories of steps/compilations/initialisations with caller-owned arrays and symbols: after every call every caller-owned object, the supplied dictionary and all element parameters are compared with pristine copies; every NumPy step from caller values is compared bit for bit with a fresh network. In addition, on every enumerated topology of the dynamics engine: caller arrays unchanged after one and two steps, and bit-identical next states when stepping again from the same dictionary and from fresh copies (clauses np.heap, np.repeat of Trace_Dyn).", "5/C12"),
-    "C13": life("All sequences of use(name|instance|bad name) and steps/initialisations with and without explicit engines for all (selected, explicit) pairs: the selected engine is a spy that must stay silent when an explicit engine is passed; kinds of all variables match; selection only changes through use().", "5/C13"),
+    "C13": life("All sequences of use(name|instance|bad name) and steps/initialisations with and without explicit engines for all (selected, explicit) pairs: the selected engine is a spy that must stay silent when an explicit engine is passed; kinds of all variables match; selection only changes through use(). In addition, on every enumerated topology of the dynamics engine a recording engine is selected while another engine is passed explicitly (three kind pairs): the recording engine must compute nothing, all variables and next states have the explicit kind, the selection survives (clauses spy.* of Trace_Dyn).", "5/C13"),
     "C14": dyn("Related networks (permuted/bulk/path construction histories with random names, equal names, turn rates scaled per node) stepped by the real library from the same values must give the next states of the base network; exact invariance under scaling is a theorem checked on the specification.", "5/C14"),
     "C15": {"engine": "prim", "text": "Full product grids per primitive (boundaries, ties, every branch), enumerated by TLC; NumPy and CasADi implementations called on each point as 0-d / length-1 / length-3 arguments and validated by TLC against the scalar laws and against each other.", "design_ref": "5/C15",
             "note": "Trusted: TLC + Real.class; grids are finite samples placed on every boundary of the laws.",
